@@ -38,6 +38,9 @@ class ConcWorld(impl_run.RunWorld):
         prog["async"] = (mode == "asyncio")
         super().__init__(prog)
 
+    def whose(self):
+        return CURRENT.get()
+
     # logging goes to the current task
     @property
     def events(self):
